@@ -31,12 +31,16 @@ class UserFunction:
     original function.
     """
 
-    def __init__(self, fun, defaults={}, args={}):
+    def __init__(self, fun, defaults=None, args=None):
         if isinstance(fun, (UserFunction, DomainUserFunction)):
             self.fun = fun.fun
             self.defaults = fun.defaults
             self.args = fun.args
         else:
+            # every wrapper gets its own containers: a shared default `{}` would be
+            # filled by set_default and then leak into all later wrappers
+            defaults = {} if defaults is None else defaults
+            args = {} if args is None else args
             self._transform_to_user_function(fun, defaults, args)
 
     def _transform_to_user_function(self, fun, defaults, args):
